@@ -172,8 +172,40 @@ def probes():
     }
 
 
+def pyify(x):
+    """{"__py__": tag, "items": [...]} -> the Python value it stands for (harness/stixgen.py:py_value_cases)."""
+    if isinstance(x, dict):
+        if "__py__" in x:
+            tag, items = x["__py__"], [pyify(i) for i in x.get("items", [])]
+            if tag == "iter":
+                return iter(items)
+            if tag == "genexp":
+                return (i for i in items)
+            if tag == "map":
+                return map(lambda i: i, items)
+            if tag == "filter":
+                return filter(lambda i: True, items)
+            if tag == "tuple":
+                return tuple(items)
+            if tag == "set":
+                return set()
+            if tag == "datetime":
+                return datetime.datetime(*items, tzinfo=datetime.timezone.utc)
+            if tag == "datetime-naive":
+                return datetime.datetime(*items)
+            if tag == "date":
+                return datetime.date(*items[:3])
+            raise ValueError(tag)
+        return {k: pyify(v) for k, v in x.items()}
+    if isinstance(x, list):
+        return [pyify(i) for i in x]
+    return x
+
+
 def run(case):
     op = case["op"]
+    if case.get("py"):
+        case = dict(case, data=pyify(case["data"]))
     try:
         if op == "probes":
             return probes()
